@@ -6,5 +6,7 @@ CONSTANTS
   Shape = "seedDraw"
 INVARIANT StreamIsolation
 INVARIANT NoClock
+INVARIANT WordPrivate
+INVARIANT EqualsSequential
 INVARIANT SeedDrawStream
 CHECK_DEADLOCK FALSE
